@@ -1,30 +1,25 @@
-import sys
+import sys, warnings
 sys.path.insert(0,'/tmp/av/A')
-from harness import common, gen, refimpl
-import cotengra as ctg, numpy as np, random
-rng=random.Random(1)
-net=gen.rand_net(rng,nmin=3,nmax=4,max_inds=6,dims=(2,3))
-print(net.eq(), net.sizes)
-t=gen.rand_tree(rng,len(net.inputs))
+from harness import common, gen
+import cotengra as ctg, random
+from cotengra.pathfinders import path_basic as pb
+print(pb.linear_to_ssa([(0,3),(1,2),(0,1)]), pb.ssa_to_linear([(0,3),(2,4),(1,5)]))
+print(pb.linear_to_ssa([(0,),(1,2),(0,1)],4))
+print(pb.ssa_to_linear(pb.linear_to_ssa([(0,),(1,2),(0,1)],4),4))
+print(pb.linear_to_ssa([(0,1,2),(0,1)],4), pb.ssa_to_linear([(2,0,1),(3,4)],4))
+inputs=[('a','b'),('b','c'),('c','d'),('d','a','e')]
+print(pb.edge_path_to_ssa(['b','a','c','d'],inputs), pb.edge_path_to_linear(['b','a','c','d'],inputs))
+try: print(pb.edge_path_to_ssa(['b','b'],inputs))
+except Exception as e: print(type(e).__name__, e)
+rng=random.Random(3)
+net=gen.rand_net(rng,nmin=5,nmax=5,max_inds=7,dims=(2,))
+t=gen.rand_tree(rng,5)
 tree=gen.real_tree(ctg,net,t)
-inds=net.indices()
-tree.remove_ind_(gen.sym(inds[0]))
-tree.remove_ind_(gen.sym(net.output[0]), project=1)
-tree.remove_ind_(gen.sym(inds[-1]))
-print(tree.sliced_inds, tree.multiplicity, tree.nslices, tree.nchunks, tree.sliced_inputs)
-print(ctg.core.get_slice_strides(tree.sliced_inds))
-for i in range(tree.nslices): print(i, tree.slice_key(i))
-arrs=[np.random.default_rng(0).integers(-3,4,size=s) for s in net.shapes()]
-class Rec:
-    def __getitem__(self, sel): return ("sel", sel)
-print(tree.slice_arrays([Rec() for _ in arrs], 1))
-r=tree.contract(arrs)
-print(r.shape, tree.output)
-for c,k in tree.gen_output_chunks(arrs, with_key=True): print(c.shape,k)
-try:
-    tree.remove_ind_(gen.sym(inds[0]))
-except Exception as e: print(type(e).__name__, e)
-try:
-    tree.restore_ind_('Z')
-except Exception as e: print(type(e).__name__, e)
-print(tree.sliced_inds)
+print(t, tree.get_path(), tree.get_ssa_path(), [sorted(p) for p,l,r in tree.traverse()])
+for o in ("surface_order", lambda n: 0, lambda n: -len(n), lambda n: min(n)):
+    print(tree.get_path(o), tree.get_ssa_path(o), [sorted(p) for p,l,r in tree.traverse(o)])
+t2=ctg.ContractionTree.from_path(net.sym_inputs(),net.sym_output(),net.sym_sizes(),path=[(0,),(1,2)],autocomplete=False)
+print(sorted(map(sorted,t2.children)), t2.is_complete())
+t3=ctg.ContractionTree.from_path(net.sym_inputs(),net.sym_output(),net.sym_sizes(),ssa_path=[(0,1,2),(3,5)],autocomplete=True)
+print(sorted(map(sorted,t3.children)))
+print(tree.surface_order(tree.root))
